@@ -151,6 +151,15 @@ def _obj(x):
     return x
 
 
+def _oa(x):
+    """symbolic scalars cannot be handed to a numpy ufunc directly (__array_ufunc__ = None): box them"""
+    if is_sym(x):
+        a0 = rnp.empty((), dtype=object)
+        a0[()] = x
+        return a0
+    return x
+
+
 def _precast(o, dt):
     """cast symbolic float elements to dt before an arithmetic op (numpy promotion)"""
     if dt.kind != 'f':
@@ -206,7 +215,7 @@ def binop(x, y, name):
         ox, oy = _obj(x), _obj(y)
     if not isinstance(ox, rnp.ndarray) and not isinstance(oy, rnp.ndarray):
         return f(ox, oy)
-    r = _frompy(f, 2, 1)(ox, oy)
+    r = _frompy(f, 2, 1)(_oa(ox), _oa(oy))
     if not isinstance(r, rnp.ndarray):
         if is_sym(r) and (isinstance(x, SArr) or isinstance(y, SArr)):
             a0 = rnp.empty((), dtype=object)       # 0-d operands: keep array capabilities (astype, mask index)
@@ -482,7 +491,7 @@ class SArr(ndarray):
             if not is_sym(vv):
                 vv = _coerce_const(vv, self.dt)
             cur = self.a if self.a.dtype == object else self.a.astype(object)
-            new = _frompy(lambda c, old: sel(c, vv, old), 2, 1)(cm, cur)
+            new = _frompy(lambda c, old: sel(c, vv, old), 2, 1)(_oa(cm), cur)
             self._set_all(new)
             return
         # gather-style assignment with symbolic integer indices
@@ -842,7 +851,19 @@ class SMasked:
     def __mul__(self, o): return SMasked.binop(self, o, 'mul')
     def __rmul__(self, o): return SMasked.binop(o, self, 'mul')
     def __truediv__(self, o): return SMasked.binop(self, o, 'truediv')
-    def __neg__(self): return SMasked(-self._data, self.mask)
+    def __neg__(self):
+        # numpy.ma unary operation: computed on the data, masked positions keep the input data
+        return SMasked(where(self.mask, self._data, -self._data), self.mask)
+
+    def unary(self, f, domain=None):
+        """numpy.ma unary ufunc: result.data = f(data) where valid, input data where masked; a domained function
+        (log: x <= 0) additionally masks the positions outside its domain"""
+        d = self._data
+        m = self.mask
+        if domain is not None:
+            m = m | domain(d)
+        r = f(d)
+        return SMasked(where(m, d, r), m)
 
     def __getattr__(self, name):
         if name.startswith('__'):
@@ -861,6 +882,18 @@ class _MA:
         return SMasked(a.copy() if copy else a, cond)
 
     MaskedArray = SMasked
+
+    @staticmethod
+    def filled(a, fill_value=None):
+        if isinstance(a, SMasked):
+            return a.filled(fill_value)
+        if all_concrete(a, fill_value):
+            return delegate(rnp.ma.filled, a, fill_value)
+        return asarray(a)
+
+    @staticmethod
+    def getdata(a):
+        return a.data if isinstance(a, SMasked) else asarray(a)
 
     def __getattr__(self, name):
         real = getattr(rnp.ma, name)
@@ -1054,11 +1087,19 @@ def _transc(name):
         if isinstance(e, XR):
             return {'log': core.xlog, 'log10': lambda a: core.xlog(a, 'log10'), 'log2': lambda a: core.xlog(a, 'log2'),
                     'exp': core.xexp}[name](e)
-        raise NotModelled('numpy.%s on a symbolic IEEE float' % name)
+        if isinstance(e, SFP):
+            # bit-exact mode: transcendental functions are uninterpreted functions on doubles (their values never
+            # enter a claim decided in this mode)
+            f = z3.Function('fp_' + name, core.F64, core.F64)
+            return SFP(f(core.cast(e, DT64).t), DT64)
+        raise NotModelled('numpy.%s on %r' % (name, type(e)))
     real = getattr(rnp, name)
     def f(x, **kw):
         if all_concrete(x):
             return wrap(real(unwrap(x)))
+        if isinstance(x, SMasked):
+            dom = (lambda d: d <= 0) if name.startswith('log') else None
+            return x.unary(f, dom)
         if core.MODE['float'] == 'xr':
             # concrete elements inside a symbolic array are lifted too, so that log(2) is the same UF term
             x = asarray(x)
@@ -1385,7 +1426,7 @@ def where(c, *args):
         c = c != 0
     rdt = rnp.result_type(_dt_of(a), _dt_of(b))
     oa, ob = _precast(_obj(a), rdt), _precast(_obj(b), rdt)
-    r = _frompy(lambda cc, x, y: sel(cc, _norm_elem(x), _norm_elem(y)), 3, 1)(_obj(c), oa, ob)
+    r = _frompy(lambda cc, x, y: sel(cc, _norm_elem(x), _norm_elem(y)), 3, 1)(_oa(_obj(c)), _oa(oa), _oa(ob))
     if not isinstance(r, rnp.ndarray):
         return r
     return mk(r, rdt)
@@ -1609,6 +1650,8 @@ class _Random:
     def _fresh_unit(self, tag):
         rec = self._rec()
         k = len(rec['draws'])
+        if k >= rec.get('max_draws', 64):
+            raise core.Truncated('more than %d random draws' % k)
         if core.MODE['float'] == 'fp':
             t = z3.FP('rand!%d' % k, core.F64)
             v = SFP(t)
